@@ -3275,6 +3275,13 @@ def _check_entry_for_changes(
 
     full_path = _tree_to_fs_path(root_path, tree_path)
     try:
+        if b"/" in tree_path:
+            # an entry whose leading directory has been replaced by a symlink
+            # is gone (git: "beyond a symbolic link"), whatever the link leads to
+            try:
+                verify_leading_dirs(tree_path, [], root_path)
+            except InvalidPathError:
+                return tree_path
         st = os.lstat(full_path)
         if stat.S_ISDIR(st.st_mode):
             if _has_directory_changed(tree_path, entry):
